@@ -63,11 +63,29 @@ func MakeType(t *rapid.T, base string, mod *Module, label string) *Type {
 		ty.FD = rapid.SampledFrom([]int{1, 2, 3, 3, 5, 8, 12}).Draw(t, label+"-fd")
 	case "enumeration":
 		n := rapid.IntRange(2, 4).Draw(t, label+"-nenum")
-		v := rapid.IntRange(1, 3).Draw(t, label+"-v0")
+		v := rapid.IntRange(0, 3).Draw(t, label+"-v0")
 		names := []string{"red", "green", "blue", "x-ray"}
+		vals := make([]int, n)
 		for i := 0; i < n; i++ {
-			ty.Enums = append(ty.Enums, EnumDef{names[i], v})
+			vals[i] = v
 			v += rapid.IntRange(1, 3).Draw(t, label+"-dv")
+		}
+		// enum values need not ascend with the order of declaration
+		switch rapid.IntRange(0, 3).Draw(t, label+"-valorder") {
+		case 2:
+			vals = rapid.Permutation(vals).Draw(t, label+"-perm")
+		case 3:
+			for i := range vals {
+				vals[i] = i // 0 .. n-1, the inner ones swapped
+			}
+			if n >= 4 {
+				vals[1], vals[2] = vals[2], vals[1]
+			} else if n == 3 {
+				vals[0], vals[1] = vals[1], vals[0]
+			}
+		}
+		for i := 0; i < n; i++ {
+			ty.Enums = append(ty.Enums, EnumDef{names[i], vals[i]})
 		}
 	case "bits":
 		n := rapid.IntRange(2, 4).Draw(t, label+"-nbits")
